@@ -16,11 +16,18 @@ UNIT = dict(
         ]),
         "InFlight::complete": dict(rules=[LOCKMAP, ("addarg", ["send"], TR, 1), ("inject", None, "end", "proof { tr.removed = tr.removed + 1; if tr.unguarded > 0 { tr.unguarded = (tr.unguarded - 1) as nat; } }")]),
         "InFlight::cancel": dict(rules=[LOCKMAP, ("inject", None, "end", "proof { tr.removed = tr.removed + 1; if tr.unguarded > 0 { tr.unguarded = (tr.unguarded - 1) as nat; } }")]),
+        "Registration::drop@Drop": dict(rules=[
+            ("sub", "ledger-take", r"\bself\.key\.take\(\)", "vx_take_key(&mut self.key, Tracked(tr))", 1),
+            ("sub", "R8-lock", r"self\.in_flight\.cancel\(", "vx_lock(&self.in_flight).cancel(", 1),
+            ("addarg", ["cancel"], TR, 1),
+        ]),
         "CoalesceService::clone@Clone": dict(),
         "CoalesceService::poll_ready@Service": dict(rules=[("R10p", "CoalesceError::Service")]),
         "CoalesceService::call@Service": dict(rules=[
             ("sub", "R8-lock", r"self\.in_flight\.try_join\(", "vx_lock(&self.in_flight).try_join(", 1),
             ("addarg", ["try_join", "call"], TR, 2),
+            ("sub", "ledger-guard", r"Registration \{\s*key: Some\(key\),\s*in_flight: Arc::clone\(&self\.in_flight\),\s*\}", "vx_guard_registration(Registration { key: Some(key), in_flight: Arc::clone(&self.in_flight) }, Tracked(tr))", 1),
+            ("sub", "ledger-take", r"registration\.key\.take\(\)", "vx_take_key(&mut registration.key, Tracked(tr))", 1),
             ("sub", "R13-pin", r"Box::pin\(future\)", "future", 1),
         ]),
         "CoalesceFuture::poll@Future": dict(skip_sig_check=True, rules=[
@@ -41,6 +48,7 @@ UNIT = dict(
     types=[
         ("enum", "CoalesceError", "service"),
         ("struct", "InFlight", "service"),
+        ("struct", "Registration", "service"),
         ("struct", "CoalesceService", "service"),
         ("enum", "CoalesceFuture", "service"),
     ],
